@@ -16,8 +16,8 @@ Inductive dtype :=
 | TTuple (elems : list dtype)
 | TStruct (members : list (str * dtype)) (optional : list str) (client : bool).
 
-(* CPython library behaviour supplied as data with each case: int(<str|bytes>) and b64decode(<str|bytes>).
-   Key: (is_bytes, content).  Absent = the call raises ValueError / binascii.Error. *)
+(* CPython library behaviour supplied as data with each case: b64decode(<str|bytes>, validate=True).
+   Key: (is_bytes, content).  Absent = the call raises binascii.Error.  (int_of is no longer consulted.) *)
 Record pyenv := {
   int_of : list (bool * str * Z);
   b64_of : list (bool * str * str);
@@ -82,7 +82,11 @@ Definition py_int_mul_float (z : Z) (f : f64) : res f64 :=
 Definition scaled_call (scale : f64) (v : pyval) : res pyval :=
   match wrap_wrong (py_add0 v) with
   | Err e => Err e
-  | Ok f => py_round (fdiv f scale) >>= fun k => py_int_mul_float k scale >>= fun r => Ok (PFloat r)
+  | Ok f =>
+      match py_round (fdiv f scale) with
+      | Err _ => Err ERange                           (* except (ValueError, OverflowError): raise RangeError *)
+      | Ok k => py_int_mul_float k scale >>= fun r => Ok (PFloat r)
+      end
   end.
 
 (* a < v for a float a and a number v (Python compares int and float exactly) *)
@@ -116,16 +120,20 @@ Definition scaled_validate (scale mn mx : f64) (v : pyval) : res pyval :=
   | Err e => Err e
   end.
 
-(* int(value) as used by ScaledInteger.import_value *)
-Definition py_int_any (E : pyenv) (v : pyval) : res Z :=
-  match v with
-  | PStr s => match lookup_sb false s (int_of E) with Some z => Ok z | None => Err EValue end
-  | PBytes s => match lookup_sb true s (int_of E) with Some z => Ok z | None => Err EValue end
-  | _ => py_int_num v
-  end.
-
+(* ScaledInteger.import_value: a whole-number float is taken as that int; anything that is not an int raises
+   TypeError inside the try, an int too large for a float raises OverflowError there: all become WrongTypeError *)
 Definition scaled_import (E : pyenv) (scale : f64) (v : pyval) : res pyval :=
-  wrap_wrong (py_int_any E v >>= fun z =>
+  let as_int : res Z :=
+    match v with
+    | PBool b => Ok (if b then 1 else 0)%Z
+    | PInt z => Ok z
+    | PFloat f =>
+        if fis_finite f then
+          match cmp_Z_f (ftrunc f) f with Some Eq => Ok (ftrunc f) | _ => Err EType end
+        else Err EType
+    | _ => Err EType
+    end in
+  wrap_wrong (as_int >>= fun z =>
               match float_of_Z z with Some zf => Ok (PFloat (fmul scale zf)) | None => Err EOverflow end).
 
 (* value in (0, 1) *)
@@ -203,36 +211,27 @@ Definition blob_import (E : pyenv) (v : pyval) : res pyval :=
   end.
 
 (* ------------------------------------------------------------------ containers: helpers *)
+(* isinstance(value, (str, bytes, dict)) *)
+Definition is_str_bytes_dict (v : pyval) : bool :=
+  match v with PStr _ | PBytes _ | PDict _ => true | _ => false end.
+
 Definition array_check (minlen maxlen : Z) (v : pyval) : res unit :=
+  if is_str_bytes_dict v then Err EWrongType else
   match py_len v with
   | None => Err EWrongType
   | Some n => if (n <? minlen)%Z then Err ERange else if (maxlen <? n)%Z then Err ERange else Ok tt
   end.
 
 Definition tuple_check (n : nat) (v : pyval) : res unit :=
+  if is_str_bytes_dict v then Err EWrongType else
   match py_len v with
   | None => Err EWrongType
   | Some k => if Z.eqb k (Z.of_nat n) then Ok tt else Err EWrongType
   end.
 
-(* dict(value): the modelled part.  Non-empty lists/tuples (sequences of pairs) are outside the model: DomOut *)
-Inductive dictres := DOk (kv : list (str * pyval)) | DErr (e : exc) | DomOut.
-Definition py_dict (v : pyval) : dictres :=
-  match v with
-  | PDict kv => DOk kv
-  | PStr [] | PBytes [] | PList [] | PTuple [] => DOk []
-  | PStr _ => DErr EValue
-  | PBytes _ => DErr EType
-  | PList _ | PTuple _ => DomOut
-  | _ => DErr EType
-  end.
-
 Definition struct_check (names optional : list str) (client allow_optional : bool) (v : pyval) : res unit :=
-  match py_dict v with
-  | DomOut => Err EOther
-  | DErr EType => Err EWrongType
-  | DErr e => Err e
-  | DOk kv =>
+  match v with
+  | PDict kv =>
       if existsb (fun p => negb (mem_str (fst p) names)) kv then Err EWrongType   (* superfluous *)
       else
         let present := map fst kv in
@@ -240,12 +239,18 @@ Definition struct_check (names optional : list str) (client allow_optional : boo
         let missing := if client || allow_optional then filter (fun n => negb (mem_str n optional)) missing
                        else missing in
         match missing with [] => Ok tt | _ => Err EWrongType end
+  | _ => Err EWrongType                               (* if not isinstance(value, dict) *)
   end.
+
+(* check_missing(result, allow_optional): a member given as None counts as missing *)
+Definition check_missing (names optional : list str) (allow_optional : bool) (kv : list (str * pyval)) : res unit :=
+  let present := map fst kv in
+  let missing := filter (fun n => negb (mem_str n present)) names in
+  let missing := if allow_optional then filter (fun n => negb (mem_str n optional)) missing else missing in
+  match missing with [] => Ok tt | _ => Err EWrongType end.
 
 Definition is_dict (v : pyval) : bool := match v with PDict _ => true | _ => false end.
 Definition dict_items (v : pyval) : list (str * pyval) := match v with PDict kv => kv | _ => [] end.
-Definition in_domain_struct (v : pyval) : bool :=
-  match v with PList (_ :: _) | PTuple (_ :: _) => false | _ => true end.
 
 (* ------------------------------------------------------------------ iteration combinators (named, so that
    lemmas about them are stated once); f is always a recursive call on a sub-datatype *)
@@ -331,7 +336,8 @@ Fixpoint dt_call (d : dtype) (v : pyval) {struct d} : res pyval :=
   | TStruct members optional client =>
       struct_check (map fst members) optional client false v >>= fun _ =>
       if negb (is_dict v) then Err EOther             (* value.items() fails; the handler then fails on the unbound key *)
-      else wrap_elem (struct_fold dt_call true members (dict_items v) []) >>= fun kv => Ok (PDict kv)
+      else wrap_elem (struct_fold dt_call true members (dict_items v) []) >>= fun kv =>
+           check_missing (map fst members) optional client kv >>= fun _ => Ok (PDict kv)
   end.
 
 Fixpoint dt_validate (d : dtype) (v prev : pyval) {struct d} : res pyval :=
@@ -351,7 +357,10 @@ Fixpoint dt_validate (d : dtype) (v prev : pyval) {struct d} : res pyval :=
           if py_truthy prev then
             match py_iter prev with
             | None => Err EWrongType                  (* zip(value, previous) raises inside the try *)
-            | Some ps => wrap_elem (map2_res (dt_validate elem) items ps) >>= fun ys => Ok (PTuple ys)
+            | Some ps =>
+                (* previous = tuple(previous) + (None,) * (len(value) - len(previous)) *)
+                let ps' := ps ++ repeat PNone (length items - length ps) in
+                wrap_elem (map2_res (dt_validate elem) items ps') >>= fun ys => Ok (PTuple ys)
             end
           else wrap_elem (map_res (fun x => dt_validate elem x PNone) items) >>= fun ys => Ok (PTuple ys)
       end
@@ -376,7 +385,7 @@ Fixpoint dt_validate (d : dtype) (v prev : pyval) {struct d} : res pyval :=
       | Some start =>
           if negb (is_dict v) then Err EOther
           else wrap_elem (struct_fold (fun d1 x => dt_validate d1 x PNone) true members (dict_items v) start)
-               >>= fun kv => Ok (PDict kv)
+               >>= fun kv => check_missing (map fst members) optional true kv >>= fun _ => Ok (PDict kv)
       end
   end.
 
@@ -384,14 +393,16 @@ Fixpoint dt_import (d : dtype) (v : pyval) {struct d} : res pyval :=
   match d with
   | TScaled scale _ _ => scaled_import E scale v
   | TBlob _ _ => blob_import E v
-  | TArray elem _ _ =>
+  | TArray elem minlen maxlen =>
+      array_check minlen maxlen v >>= fun _ =>
       match py_iter v with
-      | None => Err EType                             (* not caught *)
+      | None => Err EType                             (* unreachable after check_type *)
       | Some items => map_res (dt_import elem) items >>= fun ys => Ok (PTuple ys)
       end
   | TTuple elems =>
+      tuple_check (length elems) v >>= fun _ =>
       match py_iter v with
-      | None => Err EType
+      | None => Err EType                             (* unreachable after check_type *)
       | Some items => mapd_res dt_import elems items >>= fun ys => Ok (PTuple ys)
       end
   | TStruct members optional client =>
@@ -407,25 +418,5 @@ Definition wire (d : dtype) (j prev : pyval) : res pyval :=
 
 End WithEnv.
 
-(* inputs on which the model is not defined (a non-empty list/tuple offered where a struct is expected) *)
-Fixpoint in_domain (d : dtype) (v : pyval) {struct d} : bool :=
-  match d with
-  | TArray elem _ _ =>
-      match py_iter v with Some items => forallb (in_domain elem) items | None => true end
-  | TTuple elems =>
-      match py_iter v with
-      | Some items =>
-          (fix go (ds : list dtype) (l : list pyval) : bool :=
-             match ds, l with d1 :: ds', x :: r => in_domain d1 x && go ds' r | _, _ => true end) elems items
-      | None => true
-      end
-  | TStruct members _ _ =>
-      in_domain_struct v &&
-      forallb (fun p : str * pyval =>
-                 (fix find (ms : list (str * dtype)) : bool :=
-                    match ms with
-                    | [] => true
-                    | (n, d1) :: ms' => if str_eqb (fst p) n then in_domain d1 (snd p) else find ms'
-                    end) members) (dict_items v)
-  | _ => true
-  end.
+(* every modelled Python value is inside the model's domain (kept for the drivers that test it) *)
+Definition in_domain (d : dtype) (v : pyval) : bool := true.
